@@ -1,5 +1,6 @@
 import Spok.Wire
 import Spok.App
+import Spok.Json.Report
 import Spok.Judge.Cli
 /-! oracle driver for the cli engine (C09, C19, C20): reads `<case> | <what the real binary did>`, answers
     `<what the model does> || <judge verdicts on what the binary did>`.
@@ -174,6 +175,26 @@ def parseJson (s : String) : JsonObs :=
     | some (rs, []) => .doc rs
     | _ => .bad
 
+/-! the report at byte level: the strings of this oracle are Latin-1 (one char per byte) -/
+def cmdL (c : CmdResult) : Json.BCmd := ⟨bytesOf c.cmd, bytesOf c.stdout, bytesOf c.stderr, c.status⟩
+def resultL (r : Result) : Json.BResult := ⟨bytesOf r.task, r.cmds.map cmdL, r.skipped⟩
+
+def hasSub (needle : List UInt8) : List UInt8 → Bool
+  | [] => needle.isEmpty
+  | b :: bs => needle.isPrefixOf (b :: bs) || hasSub needle bs
+
+/-- `ok`: the bytes on stdout are exactly what `json.Marshal` + `Println` write for the content read from them (model:
+    `Json.encReport`), and the model's reader gets that content back from them; a document showing `\ufffd` (an output
+    that was not text) is not compared -/
+def canonOf (doc : JsonObs) (rawHex : String) : String :=
+  match doc, Wire.unhex rawHex with
+  | .doc rs, some raw =>
+    if hasSub (Json.ascii "\\ufffd") raw then "ok"
+    else
+      let brs := rs.map resultL
+      if Json.encReport brs ++ [10] == raw && Json.decReport (raw.dropLast) == some brs then "ok" else "diff"
+  | _, _ => "nodoc"
+
 def rowsOf (s : String) : List String := (commaList s).map fun h => (unhexS h).getD "?"
 
 /-! ## the model's little file system -/
@@ -330,6 +351,8 @@ structure StepOut where
   tr : String
   vr : String
   em : String
+  /-- `--json` runs: is the real standard output, byte for byte, `Json.reportLine` of the document's content? -/
+  canon : String := "-"
 
 def rowStr (r : String × String) : String := hexS (rowOf r.1 r.2)
 
@@ -406,17 +429,17 @@ def modelStep (cs : Case) (fs : FS) (st : StepSpec) (log : List (Nat × Nat)) : 
     | none => []
   let em := if streamOn then executedCmds.flatMap (fun k => (lines k.err).filter isEMark) else []
   let so : StepOut := match out with
-    | .empty => ⟨toString exit, named, joinOr (sortS wr) ",", "empty", "-", "-", "-", "-", joinOr em ","⟩
+    | .empty => ⟨toString exit, named, joinOr (sortS wr) ",", "empty", "-", "-", "-", "-", joinOr em ",", "-"⟩
     | .text =>
       let om := if a.isRun then executedCmds.flatMap (fun k => oMarksOf k.interp ++ oMarksOf k.out) else []
-      ⟨toString exit, named, joinOr (sortS wr) ",", "text", "-", joinOr om ",", "-", "-", joinOr em ","⟩
-    | .taskRows rows => ⟨toString exit, named, joinOr (sortS wr) ",", "text", "-", "-", joinOr (rows.map rowStr) ",", "-", joinOr em ","⟩
-    | .varRows rows => ⟨toString exit, named, joinOr (sortS wr) ",", "text", "-", "-", "-", joinOr (rows.map rowStr) ",", joinOr em ","⟩
+      ⟨toString exit, named, joinOr (sortS wr) ",", "text", "-", joinOr om ",", "-", "-", joinOr em ",", "-"⟩
+    | .taskRows rows => ⟨toString exit, named, joinOr (sortS wr) ",", "text", "-", "-", joinOr (rows.map rowStr) ",", "-", joinOr em ",", "-"⟩
+    | .varRows rows => ⟨toString exit, named, joinOr (sortS wr) ",", "text", "-", "-", "-", joinOr (rows.map rowStr) ",", joinOr em ",", "-"⟩
     | .json doc =>
       let js := match decode doc with
         | some rs => jsCanon ctx rs
         | none => "?undecodable"
-      ⟨toString exit, named, joinOr (sortS wr) ",", "json", js, "-", "-", "-", joinOr em ","⟩
+      ⟨toString exit, named, joinOr (sortS wr) ",", "json", js, "-", "-", "-", joinOr em ",", "-"⟩
   (so, fs', ctx)
 
 /-! ## the whole line -/
@@ -460,6 +483,7 @@ def runCase (c : Case) (secs : List (String × List String)) : Acc :=
         log := log
         diff := parseDiff (sectAt secs "DIFF" i)
         report := (unhexS (sectAt secs "REPORT" i)).getD "" }
+    let so := if so.out == "json" then { so with canon := canonOf ob.json (sectAt secs "RAW" i) } else so
     { fs := fs', outs := acc.outs ++ [so], prevFailed := failedTasks ctxJ log,
       v09 := acc.v09.both (c09 ctxJ acc.prevFailed ob),
       v19 := acc.v19.both (c19 ctxJ ob),
@@ -478,7 +502,7 @@ def handle (line : String) : String :=
       let secs := sectionsOf impl
       let acc := runCase c secs
       let j (f : StepOut → String) := " / ".intercalate (acc.outs.map f)
-      s!"EXIT {j (·.exit)} ; NAMED {j (·.named)} ; WR {j (·.wr)} ; OUT {j (·.out)} ; JS {j (·.js)} ; OM {j (·.om)} ; TR {j (·.tr)} ; VR {j (·.vr)} ; EM {j (·.em)}" ++
+      s!"EXIT {j (·.exit)} ; NAMED {j (·.named)} ; WR {j (·.wr)} ; OUT {j (·.out)} ; JS {j (·.js)} ; OM {j (·.om)} ; TR {j (·.tr)} ; VR {j (·.vr)} ; EM {j (·.em)} ; CANON {j (·.canon)}" ++
       s!" || C09={acc.v09.str} C19={acc.v19.str} C20={acc.v20.str} C14={acc.v14.str} C03={acc.v03.str} C17={acc.v17.str}"
   | _ => "BAD-LINE || C09=FAIL C19=FAIL C20=FAIL C14=FAIL C03=FAIL C17=FAIL"
 
